@@ -113,11 +113,13 @@ Definition J (g : dq_shared) (c pend : list addr) (l : dq_local) : Prop :=
   | S4 k s lrs prev pn e =>
       Jk g c pend l k /\ stab_ok g s lrs /\ (lrs = anc g -> second s c (aend s lrs) (lptr prev)) /\
       lptr pn <> aend s lrs /\
-      (lrs = anc g -> outward s (heap g (lptr prev)) = pn \/ lnk_lt g s (lptr prev) pn)
+      (lrs = anc g -> (outward s (heap g (lptr prev)) = pn \/ lnk_lt g s (lptr prev) pn) /\
+                      epoch g (lptr prev) = e)
   | S5 k s lrs prev pn e =>
       Jk g c pend l k /\ stab_ok g s lrs /\ (lrs = anc g -> second s c (aend s lrs) (lptr prev)) /\
       lptr pn <> aend s lrs /\ published g c pend (lptr prev) /\
-      ((lrs = anc g /\ outward s (heap g (lptr prev)) = pn) \/ lnk_lt g s (lptr prev) pn)
+      ((lrs = anc g /\ outward s (heap g (lptr prev)) = pn /\ epoch g (lptr prev) = e) \/
+       lnk_lt g s (lptr prev) pn)
   | S6 k s lrs => Jk g c pend l k /\ stab_ok g s lrs /\ (lrs = anc g -> fixed g s c)
   end.
 
